@@ -33,6 +33,12 @@ CAT_H = [coll("c1", 101, ["sa_101v0"], ["ta_901v0"], 901),
          coll("c3", 103, ["sa_103v0"], ["tb_903v0"], 903)]
 
 
+# PipeDrop_MC: one collection with two / three shards on distinct pchannels (no forwarding)
+CAT_D2 = [coll("c1", 101, ["sa_101v0", "sb_101v1"], ["ta_901v0", "tb_901v1"], 901)]
+CAT_D3 = [coll("c1", 101, ["sa_101v0", "sb_101v1", "sc_101v2"], ["ta_901v0", "tb_901v1", "tc_901v2"], 901)]
+CAT_D2_DROPPED = [coll("c1", 101, ["sa_101v0", "sb_101v1"], ["ta_901v0", "tb_901v1"], 901, dropped=True)]
+
+
 def prelude(names):
     return [{"op": "start", "c": n} for n in names]
 
